@@ -62,6 +62,10 @@ package cty
 //@   fresh_obj cty.refinementNullable (wip_nul result)
 //@   ensures (= (rfn_kind result) (rfn_kind recv))
 //@   ensures (not (= result nil.Any))
+//@   ensures (=> ((_ is box<*cty.refinementNumber>) recv) (and (not (= (wip_num result) 0)) (= ($at<cty.refinementNumber> (wip_num result)) ($at<cty.refinementNumber> (wip_num recv)))))
+//@   ensures (=> ((_ is box<*cty.refinementString>) recv) (and (not (= (wip_str result) 0)) (= ($at<cty.refinementString> (wip_str result)) ($at<cty.refinementString> (wip_str recv)))))
+//@   ensures (=> ((_ is box<*cty.refinementCollection>) recv) (and (not (= (wip_coll result) 0)) (= ($at<cty.refinementCollection> (wip_coll result)) ($at<cty.refinementCollection> (wip_coll recv)))))
+//@   ensures (=> ((_ is box<*cty.refinementNullable>) recv) (and (not (= (wip_nul result) 0)) (= ($at<cty.refinementNullable> (wip_nul result)) ($at<cty.refinementNullable> (wip_nul recv)))))
 //
 //@ func (cty.unknownValRefinement).setNull
 //@   trusted
@@ -110,15 +114,6 @@ package cty
 //@   fresh_obj cty.refinementCollection (wip_coll result)
 //@   fresh_obj cty.refinementNullable (wip_nul result)
 //@   ensures (= (rfn_kind result) 4)
-//
-//@ func (cty.Value).Refine
-//@   tags C20
-//@   frame_only
-//@   fresh result
-//@   fresh_obj cty.refinementNumber (wip_num (cty.RefinementBuilder.wip (select $H<cty.RefinementBuilder> result)))
-//@   fresh_obj cty.refinementString (wip_str (cty.RefinementBuilder.wip (select $H<cty.RefinementBuilder> result)))
-//@   fresh_obj cty.refinementCollection (wip_coll (cty.RefinementBuilder.wip (select $H<cty.RefinementBuilder> result)))
-//@   fresh_obj cty.refinementNullable (wip_nul (cty.RefinementBuilder.wip (select $H<cty.RefinementBuilder> result)))
 //
 //@ func (*cty.RefinementBuilder).StringPrefix
 //@   tags C20
